@@ -10,6 +10,9 @@ HARNESSES = [
     # case ("crash") instead of silently producing some value
     {"name": "ubsan", "src": "harness.cpp",
      "flags": ["-O1", "-DTETL_ENABLE_CONTRACT_CHECKS=1", "-fsanitize=undefined", "-fno-sanitize-recover=all"]},
+    # same cases compiled by clang++ 14: a second front end (rejects what GCC only warns about: bit_ceil<unsigned char>
+    # did not compile, fix c19f940), a second constant evaluator for `ctbits`, clang's expansion of the builtins
+    {"name": "clang", "src": "harness.cpp", "compiler": "clang++", "flags": ["-O1", "-DTETL_ENABLE_CONTRACT_CHECKS=1"]},
 ]
 
 RULE = ("8-bit types: every value (unary) and every pair (binary, same-type pairs and (i8,u8) for cmp; mixed-type pairs of gcd/lcm "
